@@ -8,7 +8,7 @@ Section GenC17.
 Variable A : Type.
 Variable zero : A.
 Variable ext : ident -> ident -> val A -> list (val A) -> option (val A).
-Notation call_at := (MiniGo.call_at A zero ext prog).
+Notation call_at F := (i_call (interp_at A zero ext prog F)).
 Notation run_method := (MiniGo.run_method A zero ext prog).
 Notation it_rep := (it_rep A).
 
@@ -105,7 +105,7 @@ Lemma gen_move_step cls i m F : wf A i -> 10 <= F ->
   exists v, run_method F (it_rep cls i) (fst (gen_move m)) (snd (gen_move m)) =
             Ret (v, it_rep cls (apply_move A zero i m)).
 Proof.
-  intros W HF. unfold MiniGo.run_method.
+  intros W HF. unfold MiniGo.run_method, MiniGo.call_at.
   destruct m as [| | | |s]; cbn [gen_move fst snd apply_move].
   - rewrite gen_GetNext by lia. eexists; reflexivity.
   - rewrite gen_GetPrevious by (assumption || lia). eexists; reflexivity.
@@ -146,7 +146,7 @@ Proof.
   intros HF. destruct (gen_slot_within_bounds cls l ms F HF) as [k [E B]].
   exists k. split; [exact E|]. split; [exact B|].
   change (it_val cls l (Z.of_nat k)) with (it_rep cls (mk_it A l k)).
-  unfold MiniGo.run_method. split.
+  unfold MiniGo.run_method, MiniGo.call_at. split.
   - rewrite gen_HasNext by lia. reflexivity.
   - intros Hk. rewrite gen_GetNext by lia. unfold get_next, has_next, it_size, mk_it. cbn [it_vals it_slot].
     destruct (Nat.ltb_spec k (length l)); [reflexivity|lia].
@@ -172,7 +172,7 @@ Theorem C17_gen_methods_compute_the_model :
     run id_GetSize [] = Ret (VInt (Z.of_nat (it_size i)), it_rep A cls i) /\
     run id_IsEmpty [] = Ret (VBool (it_size i =? 0), it_rep A cls i).
 Proof.
-  intros A zero ext cls i s F W HF run. unfold run, run_method.
+  intros A zero ext cls i s F W HF run. unfold run, run_method, MiniGo.call_at.
   rewrite gen_GetNext, gen_GetPrevious, gen_HasNext, gen_HasPrevious, gen_ToStart, gen_ToEnd, gen_ToSlot,
     gen_GetSlot, gen_GetSize, gen_IsEmpty by (assumption || lia).
   repeat split.
